@@ -15,7 +15,7 @@ class Contract:
                  inline=False, trusted=False, pure=False, auto=True, result_fresh=True,
                  prop_of=None, notes='', cls_targs=None, verify=True, terminates=True, unroll=None,
                  reads_only=False, this_shape=None, extra_env=None, body_assumes=(), max_paths=4000,
-                 returns_ref=None, timeout_ms=None, sig_not=None, binds=None, ghost=None, ghost_on=(), nowrap=False, post_facts=(), value=None, ensures_after=()):
+                 returns_ref=None, timeout_ms=None, sig_not=None, binds=None, ghost=None, ghost_on=(), nowrap=False, post_facts=(), value=None, ensures_after=(), globals=()):
         self.name = name
         self.tu = tu
         self.sig = sig
@@ -49,6 +49,7 @@ class Contract:
         self.ghost_on = list(ghost_on)
         self.nowrap = nowrap
         self.post_facts = list(post_facts)
+        self.globals = list(globals)
         self.ensures += [(e if isinstance(e, tuple) else ('postb%d' % i, e)) for i, e in enumerate(ensures_after)]
         self.value = value
         if value is not None:
